@@ -116,7 +116,7 @@ type built struct {
 }
 
 func drawProgram(t *rapid.T, c *pkit.Ctx) *built {
-	env := progen.DrawEnv(t, progen.EnvOpt{Avoid: c.ActiveSet(), BlankFields: true})
+	env := progen.DrawEnv(t, progen.EnvOpt{Avoid: c.ActiveSet()})
 	p := progen.NewProg(env)
 	n := rapid.IntRange(6, 24).Draw(t, "ncalls")
 	b := &built{features: map[string]bool{}}
